@@ -234,8 +234,17 @@ def run_lines(binary, lines, timeout_per_chunk=60, crash_marker="(crash)", cwd=N
             died = p.returncode != 0 or len(out) < len(chunk)
             marker = crash_marker
         except subprocess.TimeoutExpired as e:
-            out = (e.stdout or b"").decode("utf-8", "replace").splitlines()
-            # the last line may be partial; the request after the last complete answer hung
+            raw = (e.stdout or b"").decode("utf-8", "replace")
+            out = raw.splitlines()
+            if out and not raw.endswith("\n"):
+                out = out[:-1]                      # the last line is partial
+            if out:
+                # the batch as a whole was slow (large batch, loaded machine) but answers kept coming:
+                # keep them and go on with the rest; only a request that produces nothing within the
+                # whole allowance counts as hung
+                results.extend(out[: len(chunk)])
+                i += len(out[: len(chunk)])
+                continue
             died = True
             marker = "(timeout)"
             timeouts += 1
